@@ -180,6 +180,60 @@ def h_node_info(I, job):
     I.reach('end')
 
 
+def h_pbf_way_relation(I, job):
+    """PrimitiveBlock with one Way (delta-coded refs, optional delta-coded locations) and one Relation (roles_sid, delta-coded memids, types), both with Info and a tag"""
+    from xmlenc import Reader
+    zr = [I.named('zref%d' % k, 21) for k in range(3)]; zm = [I.named('zmem%d' % k, 21) for k in range(3)]
+    mt = [I.concretize(I.named('mtype%d' % k, 2), 'member type') for k in range(3)]
+    for t_ in mt:
+        if t_ > 2: raise PathEnd()
+    # the coordinate deltas are concrete: (value * granularity + offset) / 100 on a symbolic 64-bit value is not decided in time (unknown after 330 s)
+    zx = [z3.BitVecVal(v, 14) for v in (40, 7, 9000)]; zy = [z3.BitVecVal(v, 14) for v in (3, 16001, 2)]
+    class _T:
+        pass
+    wid = I.named('zwid', 14); rid = I.named('zrid', 14)
+    pk = lambda zs, w: sum((sym_varint(I.term(z, w), w // 7) for z in zs), [])
+    info = f_varint(1, 3) + f_varint(2, 77) + f_varint(3, 9) + f_varint(4, 11) + f_varint(5, 3)
+    way = f_varint(1, sym_varint(I.term(wid, 14), 2)) + f_bytes(2, varint(1)) + f_bytes(3, varint(2)) + f_bytes(4, info) + f_bytes(8, pk(zr, 21))
+    pkc = lambda zs: sum((sym_varint(z, 2) for z in zs), [])
+    if job['low']: way += f_bytes(9, pkc(zy)) + f_bytes(10, pkc(zx))
+    rel = f_varint(1, sym_varint(I.term(rid, 14), 2)) + f_bytes(2, varint(1)) + f_bytes(3, varint(2)) + f_bytes(4, info) + f_bytes(8, varint(4) + varint(0) + varint(4)) + f_bytes(9, pk(zm, 21)) + f_bytes(10, sum((varint(t_) for t_ in mt), []))
+    st = f_bytes(1, b'') + f_bytes(1, b'k') + f_bytes(1, b'v') + f_bytes(1, b'usr') + f_bytes(1, b'role')
+    groups = [f_bytes(2, f_bytes(3, way)), f_bytes(2, f_bytes(4, rel))]
+    if job.get('swap'): groups.reverse()
+    msg = f_bytes(1, st) + sum(groups, [])
+    buf = put(I, msg); cap = 1024; out = I.new_obj(cap, 'out', 'heap'); ol = I.new_obj(4, 'ol', 'heap')
+    rc = I.concretize(I.call('@verif_primitive_block', [buf, len(msg), 1, out, cap, ol]), 'rc'); I.observe('rc', rc)
+    if rc != 0: raise Finding('rejects-valid', 'spec-conformant PrimitiveBlock rejected (rc=%d)' % rc)
+    R = Reader(I, out, I.concretize(I.load(ol, i32), 'dumplen'))
+    def header(tcode, idt, what):
+        R.expect(tcode, 'type', what + ': type'); R.expect(z3.ZeroExt(64 - idt.size(), idt), 'id', what + ': id');       # Way.id / Relation.id are int64 (plain varint)
+        R.expect(3, 'meta', what + ': version'); R.expect(1, 'meta', what + ': visible')
+        R.expect(77, 'meta', what + ': timestamp'); R.expect(9, 'meta', what + ': changeset'); R.expect(11, 'meta', what + ': uid'); R.string('usr', what + ' user')
+    def do_way():
+        header(2, I.term(wid, 14), 'way'); R.expect(3, 'refs', 'way: number of node references')
+        acc = z3.BitVecVal(0, 64); ax = z3.BitVecVal(0, 64); ay = z3.BitVecVal(0, 64)
+        for k in range(3):
+            acc = acc + unzigzag_term(I.term(zr[k], 21)); R.expect(acc, 'delta-ref', 'way: node reference %d is not the running sum of the deltas' % k)
+            if job['low']:
+                ax = ax + unzigzag_term(zx[k]); ay = ay + unzigzag_term(zy[k])
+                R.expect(z3.ZeroExt(32, z3.Extract(31, 0, ax)), 'location', 'way: longitude of reference %d is not the running sum of the deltas' % k)
+                R.expect(z3.ZeroExt(32, z3.Extract(31, 0, ay)), 'location', 'way: latitude of reference %d is not the running sum of the deltas' % k)
+            else: R.expect(UNDEF32, 'location', 'x'); R.expect(UNDEF32, 'location', 'y')
+        R.expect(1, 'tags', 'way: tags'); R.string('k', 'way tag key'); R.string('v', 'way tag value')
+    def do_rel():
+        header(3, I.term(rid, 14), 'relation'); R.expect(3, 'members', 'relation: number of members')
+        acc = z3.BitVecVal(0, 64)
+        for k in range(3):
+            acc = acc + unzigzag_term(I.term(zm[k], 21))
+            R.expect(mt[k] + 1, 'member-type', 'relation: member %d type' % k); R.expect(acc, 'delta-member', 'relation: member id %d is not the running sum of the deltas' % k); R.string('role' if k != 1 else '', 'member %d role' % k)
+        R.expect(1, 'tags', 'relation: tags'); R.string('k', 'relation tag key'); R.string('v', 'relation tag value')
+    if job.get('swap'): do_rel(); do_way()
+    else: do_way(); do_rel()
+    R.done()
+    I.reach('end')
+
+
 def h_o5m_deltas(I, job):
     """o5m file with three nodes whose id / coordinate / timestamp / changeset deltas are symbolic zig-zag bytes; a reset marker before the third"""
     import C06
@@ -487,6 +541,9 @@ def harnesses(tier):
                 tests=[dict(_job=0, ev0=1, ev1=2, ev2=6, ev3=6, ch0=65, ch1=66, ch2=67)],
                 desc='XMLParser element callbacks on every schema-conformant event script inside <changeset> (one <discussion> with <comment>s, at most one <text> each, character data delivered in one or several pieces with symbolic bytes, <tag>s): the delivered changeset has exactly the script\'s tags and comments, each comment text being the concatenation of its character-data pieces',
                 bounds='event scripts of the listed lengths (<= %d) over 7 event kinds, 3 symbolic character bytes; expat itself (tokenising, entity decoding, attribute order) is not encoded' % (7 if tier == 'quick' else 9)),
+        Harness('pbf_way_relation', 'decode', h_pbf_way_relation, jobs=[dict(low=0), dict(low=1), dict(low=0, swap=1)],
+                desc='PBFPrimitiveBlockDecoder on a block with one Way (three node references as symbolic zig-zag deltas, with and without the delta-coded locations of the locations-on-ways extension) and one Relation (three members: symbolic member types, member ids as symbolic zig-zag deltas, roles through the string table), both with Info and a tag, groups in either order: references / member ids are the running sums, types and roles as given, metadata and tags from the string table',
+                bounds='3 references / 3 members; 21-bit symbolic deltas, 14-bit symbolic ids; coordinate deltas of the way nodes concrete'),
         Harness('o5m_member_deltas', 'chunk', h_o5m_member_deltas, jobs=[dict(reset=0), dict(reset=1), dict(reset=2)], setup=__import__('C06').setup_env,
                 desc='O5mParser on a file with two ways and two relations: way node references (one chain across ways) and relation member ids (one chain per member type node / way / relation) are running sums of symbolic zig-zag deltas, object ids form one chain, inline role strings; a reset marker between the ways or between the relations restarts every chain at 0',
                 bounds='2 ways x 2 references, 2 relations x 3 members (one per type), one-byte (7-bit) zig-zag deltas', testgen=lambda rnd: [dict(_job=rnd.randint(0, 2), **{nm: rnd.randint(0, 127) for nm in ['w%d' % k for k in range(4)] + ['m%d' % k for k in range(6)] + ['wid', 'rid']}) for _ in range(6)]),
